@@ -35,10 +35,23 @@ def cases(tier):
                 pa = dict(base, promises=['1'] + [None] * (m - 1))
                 pb = dict(base, promises=[None, '1'] + [None] * (m - 2))
                 pair('statement differs (promise position)', pa, pb, False)
+            if x >= 2:
+                zb = dict(base, zero_blinding_components=list(range(1, x)))
+                pair('statement differs (blinding generator 1, same commitment)', zb, dict(zb, degenerate_g=True), False)
             pair('statement differs (promise value)', base, dict(base, promises=['2' if n >= 2 else '1'] + [None] * (m - 1)), False)
             if m == 1 and x >= 2:
                 sa = dict(base, seeded=True)
                 pair('seeded: witness differs (same commitment)', dict(sa, degenerate_g=True), dict(sa, degenerate_g=True, witness_shift=0), False)
+    return out
+
+
+def merge_lits(ps):
+    out = []
+    for p in ps:
+        if out and p[0] == 'lit' and out[-1][0] == 'lit':
+            out[-1] = ('lit', out[-1][1] + p[1])
+        else:
+            out.append(p)
     return out
 
 
@@ -90,10 +103,12 @@ def analyse(ctx, case, run, S):
         for j in range(m):
             want.append(('lit', int(mem['values'][j]['v']).to_bytes(8, 'little').hex()))
             for k in range(x):
-                want.append(('scalar', mem['blindings'][j][k]))
+                nid = mem['blindings'][j][k]
+                # (a blinding component that is the literal zero is serialised as 32 literal zero bytes)
+                want.append(('lit', '00' * 32) if run.core['nodes'][nid][0] == 'c' and run.core['shadows'][nid] == '0' else ('scalar', nid))
         for cname, vn in sorted(names.items()):
             sid, st = rnd_info(run, vn)
-            ok = len(st['rekeys']) == 1 and st['rekeys'][0]['label'] == 'witness' and [lv.piece_desc(p) for p in st['rekeys'][0]['pieces']] == want \
+            ok = len(st['rekeys']) == 1 and st['rekeys'][0]['label'] == 'witness' and merge_lits([lv.piece_desc(p) for p in st['rekeys'][0]['pieces']]) == merge_lits(want) \
                 and st['rekeys'][0]['len'] == m * (8 + 32 * x)
             ctx.expect(ok, 'C14:witness-not-keyed', '%s run %d: the RNG state of %s is not rekeyed with the serialised witness LE64(v_j)|r_j,0..|.. of every opening' % (case['name'], ri, cname),
                        cfg, 'nonce_hedge_broken', rcfg)
